@@ -533,3 +533,237 @@ func errChainThroughCalleeA3(call *ssa.Call, idx int, isSrc func(ssa.Value) bool
 	}
 	return true, "", true
 }
+
+// ---------- C06.R6: what a capability value handed to capabilityconsumer.New* depends on ----------
+
+type capSourcesA3 struct {
+	own    bool // Capabilities() of the consumer that is being wrapped (or, inside a helper, of a parameter)
+	elems  bool // Capabilities() of the elements of a slice parameter (all next consumers)
+	fan    bool // … of the pipeline's fan-out node
+	procs  bool // … of the pipeline's processors
+	direct bool // some store to MutatesData takes the field straight out of a Capabilities() result of the fan-out node
+	helper bool // the value is computed by a same-package helper
+}
+
+// capabilitySourcesA3 evaluates the backward slice of capArg in fn and – when the value (or part of it) is the
+// result of a same-package helper – in the helper's returned values as well (depth 2).
+func capabilitySourcesA3(fn *ssa.Function, capArg, wrapped ssa.Value) capSourcesA3 {
+	var out capSourcesA3
+	type item struct {
+		v     ssa.Value
+		fn    *ssa.Function
+		call  *ssa.Call // the call through which fn was entered (nil for the site function)
+		depth int
+	}
+	work := []item{{capArg, fn, nil, 0}}
+	seenFn := map[*ssa.Function]bool{fn: true}
+	fns := []*ssa.Function{fn}
+	fieldName := func(fa *ssa.FieldAddr) string {
+		st := derefStruct(fa.X.Type())
+		if st == nil {
+			return ""
+		}
+		return st.Field(fa.Field).Name()
+	}
+	for len(work) > 0 {
+		it := work[0]
+		work = work[1:]
+		for x := range backSlice(it.v) {
+			cc, ok := x.(*ssa.Call)
+			if !ok {
+				continue
+			}
+			if cf := staticCalleeFn(cc); cf != nil && len(cf.Blocks) > 0 && it.depth < 2 && rootFn(cf).Pkg == rootFn(fn).Pkg && cf.Signature.Results().Len() == 1 {
+				out.helper = true
+				if !seenFn[cf] {
+					seenFn[cf] = true
+					fns = append(fns, cf)
+				}
+				for _, r := range returnsOf(cf) {
+					work = append(work, item{resultsOf(r)[0], cf, cc, it.depth + 1})
+				}
+				continue
+			}
+			if !cc.Call.IsInvoke() || cc.Call.Method.Name() != "Capabilities" {
+				continue
+			}
+			recv := cc.Call.Value
+			if pa, isP := strip(recv).(*ssa.Parameter); isP && it.call != nil {
+				// inside a helper: the helper's own parameter
+				own := true
+				if wrapped != nil && it.depth == 1 {
+					for i, q := range it.fn.Params {
+						if q == pa && i < len(it.call.Call.Args) {
+							own = sameValue(it.call.Call.Args[i], wrapped)
+						}
+					}
+				}
+				if own {
+					out.own = true
+				}
+			} else if wrapped != nil && it.call == nil && sameValue(recv, wrapped) {
+				out.own = true
+			}
+			for w := range backSlice(recv) {
+				switch y := w.(type) {
+				case *ssa.Parameter:
+					if _, isSl := y.Type().Underlying().(*types.Slice); isSl {
+						out.elems = true
+					}
+				case *ssa.FieldAddr:
+					switch fieldName(y) {
+					case "fanOutNode":
+						out.fan = true
+					case "processors":
+						out.procs = true
+					}
+				}
+			}
+		}
+	}
+	for _, g := range fns {
+		for _, f := range withAnon(g) {
+			allInstrs(f, func(in ssa.Instruction) {
+				st, ok := in.(*ssa.Store)
+				if !ok {
+					return
+				}
+				fa, ok := st.Addr.(*ssa.FieldAddr)
+				if !ok || fieldName(fa) != "MutatesData" {
+					return
+				}
+				var base ssa.Value
+				switch x := st.Val.(type) {
+				case *ssa.Field:
+					base = x.X
+				case *ssa.UnOp:
+					if fa2, ok := x.X.(*ssa.FieldAddr); ok {
+						base = fa2.X
+					}
+				}
+				if base == nil {
+					return
+				}
+				for w := range backSlice(base) {
+					if fa3, ok := w.(*ssa.FieldAddr); ok && fieldName(fa3) == "fanOutNode" {
+						out.direct = true
+					}
+				}
+			})
+		}
+	}
+	return out
+}
+
+// ---------- a value chosen on the way to its use (`x := a; if c { x = b }; use(x)`) ----------
+
+type altA3 struct {
+	v      ssa.Value
+	guards []Guard
+}
+
+// valueAlternativesA3: the values v may stand for at a use in block `at`, each with the conditions under which it
+// is the one used: a phi that merges branch-local choices (not a loop-carried phi) is split into its edges, the
+// guards of an edge being those of the predecessor block plus the branch of the predecessor's If that leads to the
+// phi. The guards of the use site apply to every alternative.
+func valueAlternativesA3(v ssa.Value, at *ssa.BasicBlock) []altA3 {
+	var out []altA3
+	var walk func(v ssa.Value, gs []Guard, depth int)
+	walk = func(v ssa.Value, gs []Guard, depth int) {
+		phi, ok := v.(*ssa.Phi)
+		if ok && depth < 3 {
+			loopCarried := false
+			for _, e := range phi.Edges {
+				if e == ssa.Value(phi) || backSlice(e)[phi] {
+					loopCarried = true
+				}
+			}
+			if !loopCarried {
+				blk := phi.Block()
+				for i, e := range phi.Edges {
+					pred := blk.Preds[i]
+					eg := append(append([]Guard{}, gs...), guardsOf(pred)...)
+					if len(pred.Instrs) > 0 {
+						if iff, isIf := pred.Instrs[len(pred.Instrs)-1].(*ssa.If); isIf && pred.Succs[0] != pred.Succs[1] {
+							if pred.Succs[0] == blk {
+								eg = append(eg, Guard{Cond: iff.Cond, Branch: true, If: iff})
+							} else if pred.Succs[1] == blk {
+								eg = append(eg, Guard{Cond: iff.Cond, Branch: false, If: iff})
+							}
+						}
+					}
+					walk(e, eg, depth+1)
+				}
+				return
+			}
+		}
+		out = append(out, altA3{v: v, guards: gs})
+	}
+	walk(v, guardsOf(at), 0)
+	return out
+}
+
+// lenCmpA3: the guard compares len(T.field) with a constant; returns the comparison with the length on the left.
+func lenCmpA3(g Guard, T *types.Named, field string) (token.Token, int64, bool) {
+	op, x, y, ok := cmpOf(g)
+	if !ok {
+		return 0, 0, false
+	}
+	if k, isC := constInt(y); isC && isLenOfField(x, T, field) {
+		return op, k, true
+	}
+	if k, isC := constInt(x); isC && isLenOfField(y, T, field) {
+		switch op {
+		case token.LSS:
+			op = token.GTR
+		case token.GTR:
+			op = token.LSS
+		case token.LEQ:
+			op = token.GEQ
+		case token.GEQ:
+			op = token.LEQ
+		}
+		return op, k, true
+	}
+	return 0, 0, false
+}
+
+// lenIsZeroA3: the guard states len(T.field) == 0 in any of its spellings (== 0, <= 0, < 1, and the negations of
+// != 0, > 0, >= 1 which cmpOf has already folded in).
+func lenIsZeroA3(g Guard, T *types.Named, field string) bool {
+	op, k, ok := lenCmpA3(g, T, field)
+	if !ok {
+		return false
+	}
+	return (op == token.EQL && k == 0) || (op == token.LEQ && k == 0) || (op == token.LSS && k == 1)
+}
+
+// appendsFeedingA3: the append calls whose result flows into v (through the loop-carried phi of an accumulator
+// built in a local, or directly when the field is appended to in place).
+func appendsFeedingA3(v ssa.Value) []*ssa.Call {
+	var out []*ssa.Call
+	seen := map[ssa.Value]bool{}
+	var walk func(x ssa.Value)
+	walk = func(x ssa.Value) {
+		x = strip(x)
+		if x == nil || seen[x] {
+			return
+		}
+		seen[x] = true
+		switch y := x.(type) {
+		case *ssa.Phi:
+			for _, e := range y.Edges {
+				walk(e)
+			}
+		case *ssa.Call:
+			if builtinName(y) == "append" {
+				out = append(out, y)
+				walk(y.Call.Args[0])
+			}
+		case *ssa.Slice:
+			walk(y.X)
+		}
+	}
+	walk(v)
+	return out
+}
